@@ -242,6 +242,12 @@ class DataConnection(Connection, abc.ABC):
             await self.disconnect(CloseReason.CONNECT_FAILED)
             raise ConnectionFailedError(f"{self.hostname}:{self.port} : failed to connect") from exc
 
+        except asyncio.CancelledError:
+            # The connecting task was cancelled: don't leave the connection in
+            # the CONNECTING state (and registered) forever
+            await self.disconnect(CloseReason.CONNECT_FAILED)
+            raise
+
         else:
             adapter.debug("connected", extra=self.__dict__)
             await self.set_state(ConnectionState.CONNECTED)
